@@ -66,7 +66,9 @@ def run_case(ctx, rng, index, casedir):
     outcomes = collections.Counter()
     hub_case = rng.random() < 0.02  # a selection of well over a thousand records (alignments around a hub node)
     w = VC.build(rng, casedir, index, ctx.tier, nrec=rng.choice([1024, 2048, 4096, 8192, rng.randint(1300, 2600), rng.randint(1300, 2600)]) if hub_case else rng.choice([2, 5, rng.randint(6, 40)]),
-                 **({"size": "small"} if hub_case else {}))
+                 unmapped=rng.random() < 0.25, **({"size": "small"} if hub_case else {}))
+    if w.unmapped:
+        sit["files_with_unmapped_records"] += 1
     o = VC.run_index(w, None if rng.random() < 0.7 else os.path.join(casedir, "x.gvi"))
     if not o.ok:
         # C03's subject; without an index there is nothing to judge here
